@@ -495,15 +495,12 @@ class Interstitial(object):
         if self.NV > 0:
             omega_v = np.zeros((self.NV, self.NV))
             bias_v = np.zeros(self.NV)
-            domega_v = np.zeros((self.NV, self.NV, self.dim, self.dim))
             # NOTE: there's probably a SUPER clever way to do this with higher dimensional arrays and dot...
             for a, va in enumerate(self.VectorBasis):
                 bias_v[a] = np.tensordot(bias_i, va, ((0, 1), (0, 1)))  # can also use trace(dot(bias_i.T, va))
                 for b, vb in enumerate(self.VectorBasis):
                     omega_v[a, b] = np.tensordot(va, np.tensordot(omega_ij, vb, ((1), (0))), ((0, 1), (0, 1)))
-                    domega_v[a, b] = np.tensordot(va, np.tensordot(domega_ij, vb, ((1), (0))), ((0, 1), (0, 3)))
             gamma_v = self.bias_solver(omega_v, bias_v)
-            dg = np.tensordot(domega_v, gamma_v, ((1), (0)))
             # need to project gamma_v *back onto* our sites; not sure if we can just do with a dot since
             # self.VectorBasis is a list of Nx3 matrices
             gamma_i = sum(g * va for g, va in zip(gamma_v, self.VectorBasis))
@@ -511,7 +508,9 @@ class Interstitial(object):
             for c, d in itertools.product(range(self.dim), repeat=2):
                 Dp[:, :, c, d] += np.tensordot(gamma_i, biasP_i[:, :, c, d], ((0), (0))) + \
                                   np.tensordot(biasP_i[:, :, c, d], gamma_i, ((0), (0)))
-            Dp += np.tensordot(np.tensordot(self.VV, gamma_v, ((3), (0))), dg, ((2), (0)))
+            # the strain derivative of the rate matrix is not invariant component by component, so it cannot be
+            # projected onto the (symmetric) vector basis first: contract it with the site vectors directly
+            Dp += np.einsum('ia,ijcd,jb->abcd', gamma_i, domega_ij, gamma_i)
 
         for a, b, c, d in itertools.product(range(self.dim), repeat=4):
             if a == c:
